@@ -161,6 +161,9 @@ Section SelCacheG.
 End SelCacheG.
 
 (* ---- more facts about the definition ---- *)
+Lemma seg_0 bs a : seg bs a 0 = 0.
+Proof. reflexivity. Qed.
+
 Lemma rank1_S bs a : rank1 bs (S a) = rank1 bs a + (if nth a bs false then 1 else 0).
 Proof.
   replace (S a) with (a + 1) by lia. rewrite rank1_seg. f_equal.
@@ -207,22 +210,4 @@ Qed.
 Lemma select_in_word_lt w k : k < count1 w -> select_in_word w k < length w.
 Proof.
   intros H. destruct (select1_lt_count w k H) as (p & Hp & Hl). unfold select_in_word. rewrite Hp. exact Hl.
-Qed.
-
-(* ---- the ascending in-line scan over consecutive 64-bit words ---- *)
-Lemma scan_asc_words bs w0 : forall n j rem,
-  rem < seg bs (64 * (w0 + j)) (64 * n) ->
-  scan_asc (map (fun i => word bs (w0 + i)) (seq j n)) (64 * w0) j rem =
-  select1 bs (rank1 bs (64 * (w0 + j)) + rem).
-Proof.
-  induction n as [|n IH]; intros j rem Hrem.
-  - unfold seg in Hrem. cbn in Hrem. lia.
-  - cbn [seq map scan_asc]. rewrite word_count.
-    destruct (Nat.ltb_spec rem (seg bs (64 * (w0 + j)) 64)) as [Hin|Hout].
-    + destruct (select1_window bs (64 * (w0 + j)) (rank1 bs (64 * (w0 + j)) + rem)) as (Hsel & _); [lia|lia|].
-      rewrite Hsel. unfold word. f_equal. replace (rank1 bs (64 * (w0 + j)) + rem - rank1 bs (64 * (w0 + j))) with rem by lia. lia.
-    + replace (64 * S n) with (64 + 64 * n) in Hrem by lia. rewrite seg_add in Hrem.
-      rewrite IH.
-      * f_equal. replace (64 * (w0 + S j)) with (64 * (w0 + j) + 64) by lia. rewrite rank1_seg. lia.
-      * replace (64 * (w0 + S j)) with (64 * (w0 + j) + 64) by lia. lia.
 Qed.
